@@ -155,4 +155,37 @@ PROPS = {
                 "equal to the model. Crash between any two removal commits is enumerated by the C06 check, whose "
                 "histories contain removals. Non-trivial = the removed wallet owned coins.",
     },
+    "C02": {
+        "level": "exploration",
+        "quick_runs": 1600, "thorough_runs": 50000, "chunk": 50,
+        "thorough_params": {"ops": 80, "manypct": 10},
+        "nontrivial_stat": "check.built_tx",
+        "rule": "one run = a generated chain history (mining, forks, pending announcements) giving 1-2 wallets coins of all "
+                "kinds (4% of runs add ~700 small coins to exceed the standard-size input cap); at quiescent, fully synced "
+                "points sequences of AutoCreateRawTransaction / CreateStakingTransaction / CreateBindingTransaction / "
+                "CreateRawTransaction (explicit inputs, fee subtraction) requests are issued with drawn targets (small, a "
+                "fraction of the funds, around all funds, far too much), user fees, lock times, sender and change "
+                "addresses; the fake clock jumps by 1s / 4m59s / 5m / 5m1s / 11m between them (five-minute reservations). "
+                "Oracle from the ledger model, the pending set and a harness-side reservation set: ownership, no duplicate "
+                "inputs, eligibility under automatic selection (mature, unlocked, not pending-spent, not reserved), exact "
+                "requested outputs plus at most one change to the right address, inputs-outputs == reported fee >= user fee "
+                "and >= relay minimum for the size after signing with the wallet, fee ceiling, required sequences; "
+                "must-succeed / must-fail-with-insufficient-funds outside a stated grey zone. Non-trivial = at least one "
+                "transaction was built and checked.",
+    },
+    "C03": {
+        "level": "exploration",
+        "quick_runs": 1600, "thorough_runs": 50000, "chunk": 50,
+        "thorough_params": {"ops": 80},
+        "nontrivial_stat": "check.signed_tx",
+        "rule": "one run = a generated chain history as in C02; at quiescent points transactions over the wallet's coins are "
+                "assembled by the harness (1-4 inputs across addresses: standard, staking and binding withdrawals with their "
+                "sequence values, coinbase, outputs of pending transactions), with all six sighash flags (SINGLE only when "
+                "every input has an output), lock times and payloads, and signed in drawn sequences of right-passphrase and "
+                "wrong-passphrase attempts (empty, near misses, binary, the public passphrase). Oracle: right passphrase "
+                "=> success, identical transaction id and non-witness fields, every input passes an independent run of "
+                "the consensus script engine against the output it spends, the redeem script carries the key of the "
+                "independently derived address; any other passphrase => error and no bytes, also right after a successful "
+                "unlock. Non-trivial = at least one signed transaction verified.",
+    },
 }
